@@ -593,6 +593,12 @@ def replay_obligation(target, ob):
             return 'confirmed', found
         return 'no-replay', dict(detail, reason="counter-model depends on the abstraction of an extern; randomised "
                                  "search over concrete inputs found no failing input")
+    if any(isinstance(v, dict) for v in ob.model.values()):
+        # symbolic maps are read from the model only at the keys the run mentioned; a counter-model that lives at another
+        # key of a map is not reproduced by that reading: look for a real failing input of the same path shape
+        found = search_witness(target, ob, tries=600)
+        if found is not None:
+            return 'confirmed', found
     return 'contradicted', detail
 
 
